@@ -5,6 +5,7 @@ import itertools
 import lib
 
 PID = "C13"
+COQ_TARGETS = ["Model/PipelineRun.vo"]
 BAD = 999
 
 
